@@ -206,7 +206,9 @@ ObsoleteStep(t, L, nextPc) ==
 (* what a field segment sees in inner node n for the remaining key of thread record r *)
 RemKey(r) == Drop(r.k, r.depth)
 PrefixMatches(n, r) == Lcp(nodes[n].prefix, RemKey(r)) = Len(nodes[n].prefix)
-Byte(n, r) == r.k[r.depth + Len(nodes[n].prefix) + 1]
+\* (a stale reader may stand at a depth at which its key is exhausted: the code then reads a zero byte of the
+\*  shifted-out integer key; whatever it does with it is discarded by the failing validation that follows)
+Byte(n, r) == LET i == r.depth + Len(nodes[n].prefix) + 1 IN IF i <= Len(r.k) THEN r.k[i] ELSE 0
 HasChild(n, r) == Byte(n, r) \in DOMAIN nodes[n].ch
 
 \* a step that only reads fields of node n and changes the thread record
